@@ -76,11 +76,22 @@ func genC05(cs *CaseSet, rng *Rng, tier string, dir string) {
 	build := func(cls int) c05Req {
 		serial++
 		n := fmt.Sprintf("%d", serial)
+		// every other target carries an info fork whose type signature CONTRADICTS its kind on disk (a file typed
+		// "fldr", a folder typed "TEXT"): the privilege is governed by what the target is, not by what a fork claims
 		file := func() string {
 			must(os.WriteFile(filepath.Join(root, "f"+n+".txt"), []byte("data"), 0644))
+			if serial%2 == 0 {
+				must(os.WriteFile(filepath.Join(root, ".info_f"+n+".txt"), c11InfoFork("fldr", "n/a ", []byte("f"+n+".txt"), nil), 0644))
+			}
 			return "f" + n + ".txt"
 		}
-		folder := func() string { must(os.Mkdir(filepath.Join(root, "d"+n), 0755)); return "d" + n }
+		folder := func() string {
+			must(os.Mkdir(filepath.Join(root, "d"+n), 0755))
+			if serial%2 == 0 {
+				must(os.WriteFile(filepath.Join(root, ".info_d"+n), c11InfoFork("TEXT", "ttxt", []byte("d"+n), nil), 0644))
+			}
+			return "d" + n
+		}
 		switch cls {
 		case 1:
 			return c05Req{mobius.HandleChatSend, hotline.TranChatSend, []hotline.Field{fn(hotline.FieldData, []byte("hi"))}}
